@@ -125,6 +125,14 @@ fn optval_from_j(j: &J) -> Result<Option<Val>, String> {
 pub enum Backend {
     Vec,
     ArcVec,
+    /// `&[T]` (only `titer` / `map`: it is a TIter, not a Vec1View)
+    SliceRef,
+    /// `&mut [T]`
+    SliceMut,
+    /// `[T; N]` for N <= 6
+    FixedArray,
+    /// `ArrayViewMut1<T>` over an owned array
+    NdViewMut,
     /// VecDeque whose ring buffer is rotated by `head` pushes/pops before filling
     Deque { head: usize },
     ArcDeque { head: usize },
@@ -147,6 +155,10 @@ impl Backend {
         match self {
             Backend::Vec => "vec",
             Backend::ArcVec => "arc_vec",
+            Backend::SliceRef => "slice_ref",
+            Backend::SliceMut => "slice_mut",
+            Backend::FixedArray => "fixed_array",
+            Backend::NdViewMut => "nd_view_mut",
             Backend::Deque { .. } => "deque",
             Backend::ArcDeque { .. } => "arc_deque",
             Backend::Array1 => "array1",
@@ -178,6 +190,10 @@ impl Backend {
         Ok(match k {
             "vec" => Backend::Vec,
             "arc_vec" => Backend::ArcVec,
+            "slice_ref" => Backend::SliceRef,
+            "slice_mut" => Backend::SliceMut,
+            "fixed_array" => Backend::FixedArray,
+            "nd_view_mut" => Backend::NdViewMut,
             "deque" => Backend::Deque { head: j.req("head")?.as_usize()? },
             "arc_deque" => Backend::ArcDeque { head: j.req("head")?.as_usize()? },
             "array1" => Backend::Array1,
